@@ -24,7 +24,7 @@ from .c13 import TRAVERSAL_LIMIT_S, time_limit
 # IndexLambda with hand-built unsorted bindings: CopyMapper.map_index_lambda iterates the bindings sorted and
 # `_entries_are_identical` zips mappings positionally -> rebuilt although nothing changed.  Found by this batch on the
 # clean tree, handed over with proposed_fixes/c13-entries-are-identical-by-key.diff
-HANDED_OVER: set = {"identity-depends-on-mapping-order:index-lambda-bindings"}
+HANDED_OVER: set = set()   # (fixed in /repo: f422938)
 
 
 def graphs(unsorted: bool):
